@@ -24,6 +24,11 @@ the explicit hypothesis that capillary rise did not overshoot saturation on that
 and `day_inv_no_table` discharges `hNo` when there is no water table (capillary rise is then the
 identity).  Whether the slack is ever used on a real run is a search target of the oracle.
 
+Law of `x ** 2`: the adjusted field capacity above a water table is computed with
+`(…) ** 2` (C `pow`), so `th_fc ≤ th_fc_adj ≤ th_s` after the groundwater check needs
+`PowSqLaw F` (`x ** 2 = x · x`, `Proofs/PowSq.lean`) — explicit in `groundwater_check_inv`, the
+field `sq` of `DayPre`, `RunPre`, and `powSq` of `CfgOK.fn` at run level.
+
 Other premises, all on the day's inputs: `DayPre` (see `Properties/C01.lean`); `DayTrPre` for
 transpiration: idealised geometry (`dzsum` = running sum of the positive `dz`), non-negative
 `aer_days_comp`, `SxTop`, `SxBot`, `r_cor`, positive rounded rooting depth, and in net-irrigation
@@ -41,10 +46,10 @@ variable {α : Type} [Field α] [LinearOrder α] [IsStrictOrderedRing α]
 
 /-- The groundwater check keeps every water content and re-establishes
 `th_fc ≤ th_fc_adj ≤ th_s`. -/
-theorem groundwater_check_inv (F : Fn α) (cells : List (Cell α)) (wt : Nat) (zGW : α)
-    (r : GwtOut α) (hinv : ∀ x ∈ cells, x.Inv) (h : checkGroundwaterTable F cells wt zGW = some r) :
+theorem groundwater_check_inv {F : Fn α} (hF : PowSqLaw F) (cells : List (Cell α)) (wt : Nat)
+    (zGW : α) (r : GwtOut α) (hinv : ∀ x ∈ cells, x.Inv) (h : checkGroundwaterTable F cells wt zGW = some r) :
     ∀ y ∈ r.cells, y.Inv :=
-  checkGroundwaterTable_inv_any F cells wt zGW r hinv h
+  checkGroundwaterTable_inv_any hF cells wt zGW r hinv h
 
 /-- Pre-irrigation with `0 ≤ NetIrrSMT ≤ 100` preserves the invariant and raises no compartment
 above field capacity. -/
